@@ -857,3 +857,9 @@ CHECKS["C01"]["note"] = (
     'comments) cannot violate the statement and are left out; pickles that load to a foreign object under the '
     '*current* version are outside the alphabet.'
 )
+
+CHECKS["C25"]["text"] += (
+    " In addition, on a fixed sub-sample of the models, histories on one parsed tree: generate, then every sequence of 1-2 "
+    "(thorough 1-3) in-place edits (add a variable with its equation, drop the first equation, change a parameter value) with a "
+    "generate after each; every XML must equal the XML of a fresh parse that carries the same edits (differential oracle)."
+)
